@@ -72,7 +72,7 @@ const Matrix<double>& FullHmmTransitionMatrix::getPij() const
         pij_(i, j) = vSimplex_[i].prob(j);
       }
     }
-    upToDate_ = true;
+    // upToDate_ is set by getEquilibriumFrequencies() only: it guards the equilibrium vector too
   }
 
   return pij_;
